@@ -51,7 +51,8 @@ def rename(src, fn, name, new):
 
 
 def sweep(prop):
-    base_p = Project("/repo")
+    ROOT = os.environ.get("SWEEP_ROOT", "/repo")
+    base_p = Project(ROOT)
     base = Ctx(prop, base_p, quiet=True)
     run_rules(prop, base)
     base_keys = {Ctx.key(f) for f in base.findings}
@@ -74,7 +75,7 @@ def sweep(prop):
                 continue
             n += 1
             try:
-                c = Ctx(prop, Project("/repo", overlay={rel: new_src}, base=base_p), quiet=True)
+                c = Ctx(prop, Project(ROOT, overlay={rel: new_src}, base=base_p), quiet=True)
                 run_rules(prop, c)
                 c.check_floors()
                 new = [Ctx.key(f) for f in c.findings if Ctx.key(f) not in base_keys]
